@@ -24,6 +24,7 @@ import (
 	"sort"
 	"strings"
 	"sync"
+	"syscall"
 
 	"github.com/invopop/gobl"
 	"github.com/invopop/gobl/bill"
@@ -63,6 +64,32 @@ func rederivedAtUnmarshal(e *edit) bool {
 	return e.Kind == "remove-member" && len(e.Path) == 1 && e.Path[0] == "$regime"
 }
 
+// classifier of known_findings.json: the edit removes a member whose value is the zero value of its kind
+// ("0", "", 0, false): for a member GOBL always writes, absence and the zero value are the same document
+// once read (named predicate over the edit and the base document).
+const clsZeroMember = "c08.zeroValuedMemberRemoved"
+
+func removesZeroValued(b *base, e *edit) bool {
+	if e.Kind != "remove-member" {
+		return false
+	}
+	x := atSafe(b.doc, e.Path)
+	if x == nil {
+		return false
+	}
+	switch x.K {
+	case c07.Str:
+		return x.S == "0" || x.S == ""
+	case c07.Int:
+		return x.I == 0
+	case c07.Flt:
+		return x.F == 0
+	case c07.Bool:
+		return !x.B
+	}
+	return false
+}
+
 type edit struct {
 	// alter-leaf | negate-leaf | swap-cr-lf | append-slash | append-fragment | append-space | toggle-case |
 	// remove-member | add-unknown-member | add-member | add-sibling-member |
@@ -93,6 +120,10 @@ type ecase struct {
 	Base string `json:"base"` // name of the base envelope
 	Text string `json:"text"` // the edited / re-encoded envelope text
 	Edit *edit  `json:"edit,omitempty"`
+	// "calculated-validates": Text holds a document that is calculated and put through the first clause
+	Clause string `json:"clause,omitempty"`
+	// the text of a derived base (bases.go), so that the replay need not derive it again
+	BaseText string `json:"base_text,omitempty"`
 }
 
 type base struct {
@@ -103,6 +134,7 @@ type base struct {
 	digest string  // head.dig.val
 	gdoc   *c07.JV // json.Marshal(e.Document) as GOBL sees it, normalised
 	text   string  // the genuine envelope text
+	focus  [][]string // a derived base: where its new content is (nil: an example, every edit is swept)
 	// the document as GOBL holds it after reading the genuine text (nil: reading it twice does not
 	// give deeply equal values, so values cannot be compared for this base)
 	payload any
@@ -259,6 +291,11 @@ func enumerate(doc *c07.JV) []*edit {
 			if v.K == c07.Str && strings.ContainsAny(v.S, "\r\n") {
 				out = append(out, &edit{Kind: "swap-cr-lf", Path: p})
 			}
+			// the smallest changes within the leaf's own type: a fraction of a second on a date-time or
+			// time, a zone suffix, one more decimal on an amount
+			for _, k := range typedEdits(v) {
+				out = append(out, &edit{Kind: k, Path: p})
+			}
 			// the smallest extensions a lenient reader might strip again: a trailing slash or a
 			// fragment on identifiers and URLs, trailing white space, the case of the first letter
 			if v.K == c07.Str && v.S != "" {
@@ -391,6 +428,11 @@ func apply(doc *c07.JV, e *edit) *c07.JV {
 		default:
 			x.S = string(x.S[0]^0x20) + x.S[1:]
 		}
+		e.Now = x.S
+	case "fraction-tenth", "fraction-nano", "zone-suffix", "trailing-zero":
+		x := at(d, e.Path)
+		e.Was = x.S
+		x.S = applyTyped(e.Kind, x.S)
 		e.Now = x.S
 	case "remove-member":
 		par := at(d, e.Path[:len(e.Path)-1])
@@ -758,6 +800,23 @@ func Run(c *core.Ctx) int {
 		byName[b.name] = b
 	}
 
+	if replaying && rc.Clause != "" {
+		if r := clause1(rc.Text); r.fail != "" {
+			c.Fail("", rc.Base+": "+r.fail, &rc)
+		}
+		c.Eval("clause1:"+rc.Base, true)
+		return c.Finish("replay", nil)
+	}
+	if replaying && rc.BaseText != "" {
+		b, why := loadBase(rc.Base, rc.BaseText)
+		if b == nil {
+			// the base itself — a calculated envelope of a valid document — no longer loads or validates
+			c.Fail("", rc.Base+": the base envelope of this case is refused: "+why, &rc)
+			return c.Finish("replay", nil)
+		}
+		judgeOne(c, b, &rc, present(b, rc.Text, rc.Edit != nil))
+		return c.Finish("replay", nil)
+	}
 	if replaying {
 		b := byName[rc.Base]
 		if b == nil {
@@ -788,11 +847,76 @@ func Run(c *core.Ctx) int {
 		}
 	}
 
+	cpu0 := cpuSeconds()
+	lapCPU := func(what string) {
+		now := cpuSeconds()
+		c.Count("cpu_seconds:"+what, int64(now-cpu0+0.5))
+		cpu0 = now
+	}
+	// ---- the first clause in full on every base: straight after Calculate, after Validate has run once,
+	// after a serialise / read round (bases.go)
+	for _, b := range bases {
+		r := clause1(b.text)
+		c.Eval("clause1:"+b.name, true)
+		switch {
+		case r.fail != "":
+			c.Fail("", b.name+": "+r.fail, &ecase{Base: b.name, Text: b.text, Clause: "calculated-validates"})
+		case !r.valid:
+			c.Count("base:recalculated_not_valid:"+r.note, 1)
+		}
+	}
+
+	lapCPU("bases")
+	derivedList := deriveBases(c, bases)
+	lapCPU("derive")
+	// ---- derived bases: members the examples leave empty filled, references tied, lists in every order
+	nExamples := len(bases)
+	for _, dv := range derivedList {
+		b, why := loadBase(dv.name, dv.text)
+		if b == nil {
+			c.Fail("", dv.name+": a calculated envelope that validated a moment ago is refused when read as a base: "+why,
+				&ecase{Base: dv.name, Text: dv.text, Clause: "calculated-validates"})
+			continue
+		}
+		b.focus = dv.focus
+		if os.Getenv("VERIF_C08_DUMP") != "" {
+			fmt.Fprintln(os.Stderr, "derived:", dv.name)
+		}
+		c.Count("base:derived:"+dv.stage, 1)
+		bases = append(bases, b)
+		texts[b.name] = b.text
+	}
+	c.Count("base:derived", int64(len(bases)-nExamples))
+	lapCPU("load-derived")
+
 	// ---- every single edit
 	var jobs []job
 	total := 0
+	var derivedJobs []job
 	for _, b := range bases {
 		es := enumerate(b.doc)
+		if b.focus != nil {
+			// a derived base: the edits of its new content (the rest is swept on the example it comes from)
+			var in []*edit
+			for _, e := range es {
+				for _, f := range b.focus {
+					if hasPrefix(e.Path, f) {
+						in = append(in, e)
+						break
+					}
+				}
+			}
+			total += len(in)
+			for _, e := range in {
+				// quick tier: the date-time / time edits on every derived base, a regular sample of the others
+				if (typedKind(e.Kind) && e.Kind != "trailing-zero") {
+					jobs = append(jobs, job{b: b, e: e})
+				} else {
+					derivedJobs = append(derivedJobs, job{b: b, e: e})
+				}
+			}
+			continue
+		}
 		// plus one unknown member added at the top of the document and in every object one level down
 		es = append(es, &edit{Kind: "add-unknown-member", Path: nil})
 		for _, m := range b.doc.M {
@@ -806,6 +930,9 @@ func Run(c *core.Ctx) int {
 		}
 	}
 	c.Count("edits:enumerated", int64(total))
+	for i, step := 0, len(derivedJobs)/c.Pick(3000, 40000)+1; i < len(derivedJobs); i += step {
+		jobs = append(jobs, derivedJobs[i])
+	}
 	if !c.Thorough() {
 		want := c.Pick(5000, 0)
 		if len(jobs) > want {
@@ -814,7 +941,7 @@ func Run(c *core.Ctx) int {
 			var keep []job
 			for _, j := range jobs {
 				// also every edit of the small generated bases and every sign / line-ending edit
-				if len(j.e.Path) <= 1 || strings.HasPrefix(j.b.name, "generated/") || j.e.Kind == "negate-leaf" || j.e.Kind == "swap-cr-lf" ||
+				if (len(j.e.Path) <= 1 && j.b.focus == nil) || strings.HasPrefix(j.b.name, "generated/") || j.b.focus != nil || (typedKind(j.e.Kind) && j.e.Kind != "trailing-zero") || j.e.Kind == "negate-leaf" || j.e.Kind == "swap-cr-lf" ||
 					j.e.Kind == "swap-distinct" || j.e.Kind == "respell-float" || j.e.Kind == "unicode-nfd" || j.e.Kind == "unicode-nfc" || j.e.Kind == "add-empty-member" || j.e.Kind == "add-null-sibling-member" || len(keep) < want {
 					keep = append(keep, j)
 				}
@@ -854,14 +981,25 @@ func Run(c *core.Ctx) int {
 			c.Count("edits:content_preserving_skipped", 1)
 			continue
 		}
-		judgeOne(c, jobs[i].b, &ecase{Base: jobs[i].b.name, Text: jobs[i].t, Edit: jobs[i].e}, outs[i])
+		ec := &ecase{Base: jobs[i].b.name, Text: jobs[i].t, Edit: jobs[i].e}
+		if jobs[i].b.focus != nil {
+			ec.BaseText = jobs[i].b.text
+		}
+		judgeOne(c, jobs[i].b, ec, outs[i])
 	}
 
+	lapCPU("edit-sweep")
 	// ---- content-preserving re-encodings keep validating
 	nre := c.Pick(7, 28)
 	for _, b := range bases {
 		for k := 0; k < nre; k++ {
+			if b.focus != nil && k >= c.Pick(1, 7) {
+				break
+			}
 			st := c07.Style{WS: k % 3, Shuffle: k%2 == 1, Esc: k % 7}
+			if b.focus != nil { // a derived base gets fewer styles: start with one that changes something
+				st = c07.Style{WS: (k + 1) % 3, Shuffle: true, Esc: (k + len(b.name)) % 7}
+			}
 			if k >= 7 {
 				st = c07.Style{WS: c.Rng.Intn(3), Shuffle: c.Rng.Intn(2) == 0, Esc: c.Rng.Intn(7)}
 			}
@@ -876,6 +1014,7 @@ func Run(c *core.Ctx) int {
 		}
 	}
 
+	lapCPU("re-encodings")
 	// ---- the model: digest = SHA-256 of the model's canonical bytes of json.Marshal(e.Document)
 	var reqs []string
 	var ref []string
@@ -934,8 +1073,10 @@ func Run(c *core.Ctx) int {
 		}
 	}
 
+	lapCPU("model-tie")
 	// ---- the edit calculus: the Lean oracle performs the same edit on the same document
 	editTie(c, jobs)
+	lapCPU("edit-tie")
 
 	c.Note("members unknown to GOBL's structs that are added to the document are dropped by encoding/json before any GOBL code runs, so the envelope keeps validating: %d of %d such additions (counted under unknown_member_added:*, not judged: DESIGN.md C08 'Not covered')",
 		c.Counters["unknown_member_added:validates"], c.Counters["edit:add-unknown-member"])
@@ -1189,6 +1330,8 @@ func judgeOne(c *core.Ctx, b *base, ec *ecase, o outcome) {
 		cls := ""
 		if rederivedAtUnmarshal(e) {
 			cls = clsRederived
+		} else if removesZeroValued(b, e) {
+			cls = clsZeroMember
 		}
 		why := "the digest did not change although GOBL's view of the document did"
 		if o.gdocSame {
@@ -1205,6 +1348,8 @@ func judgeOne(c *core.Ctx, b *base, ec *ecase, o outcome) {
 			cls := ""
 			if rederivedAtUnmarshal(e) {
 				cls = clsRederived
+			} else if removesZeroValued(b, e) {
+				cls = clsZeroMember
 			}
 			c.Fail(cls, where+": validation fails ("+short(o.detail)+") but the digest is unchanged: the digest does not see this edit", ec)
 		} else {
@@ -1229,4 +1374,13 @@ func judgeOne(c *core.Ctx, b *base, ec *ecase, o outcome) {
 	default:
 		c.Fail("", where+": after Calculate the document has the original content but the digest differs", ec)
 	}
+}
+
+// cpuSeconds: user+system CPU time of this process so far.
+func cpuSeconds() float64 {
+	var ru syscall.Rusage
+	if syscall.Getrusage(syscall.RUSAGE_SELF, &ru) != nil {
+		return 0
+	}
+	return float64(ru.Utime.Sec+ru.Stime.Sec) + float64(ru.Utime.Usec+ru.Stime.Usec)/1e6
 }
